@@ -526,7 +526,11 @@ func (fc *FnCtx) doInvoke(cc *ssa.CallCommon, args []Val, pos token.Pos, resT ty
 			sub := pre.derive()
 			sub.assume(cond)
 			fc.cur = sub
+			nob := len(fc.obls)
 			r := fc.inline(cd.fn, cargs, nil, pos, resT)
+			// panic-freedom of the implementation is its own obligation, not this call site's
+			fc.obls = fc.obls[:nob]
+			fc.noteTrusted("implementation " + key + " assumed panic-free under its implicit precondition (non-nil receiver)")
 			fc.cur = post
 			var eqs []string
 			for k := range r.L {
@@ -811,6 +815,16 @@ func (fc *FnCtx) specialCall(callee *ssa.Function, args []Val, pos token.Pos, re
 		return boolVal(fc.errorsIs(args[0], args[1])), true
 	case "github.com/pkg/sftp.debug":
 		return Val{T: resT}, true
+	case "sync/atomic.AddUint32", "sync/atomic.AddUint64", "sync/atomic.AddInt32", "sync/atomic.AddInt64":
+		fc.noteTrusted("sync/atomic.Add*: linearizable read-modify-write")
+		fc.oblige("nil", "atomic", ptrNonNil(args[0]), pos, "atomic op on nil pointer")
+		old := fc.loadPtr(fc.cur, args[0])
+		nv := Val{T: old.T, L: []string{app("bvadd", old.L[0], args[1].L[0])}}
+		// other goroutines may have changed the cell: the value read is arbitrary, the result is read+delta
+		fr := fc.freshVal("atomic", old.T)
+		nv = Val{T: old.T, L: []string{app("bvadd", fr.L[0], args[1].L[0])}}
+		fc.storePtr(fc.cur, args[0], nv)
+		return Val{T: resT, L: nv.L}, true
 	}
 	return Val{}, false
 }
